@@ -6,17 +6,16 @@
    bits and base / untyped map) holds for row r, key k;  [spec_run ops] : the
    map obtained by applying the same history to an empty row -> key -> value map
    (set stores, remove and clear_row delete).
-   [Known_C30 ops] : the history contains a set_property at row usize::MAX, the one
-   input class on which the code's usize arithmetic overflows (see C30_refuted). *)
+   [rows_ok ops] : every row index of the history is a usize (<= 2^64 - 1). *)
 From Coq Require Import List NArith ZArith Bool.
 From Verif Require Import ColumnStore ColumnStoreProofs.
 Import ListNotations.
 Open Scope N_scope.
 
-(* every history outside the recorded class: no panic, the representation
-   invariant holds, and the store denotes exactly the specification map *)
+(* every history over usize rows: no panic, the representation invariant holds,
+   and the store denotes exactly the specification map *)
 Theorem C30_all_histories : forall ops,
-  Known_C30 ops = false ->
+  rows_ok ops = true ->
   exists s, run ops = Some s /\ SInv s /\ forall r k, abs s r k = spec_run ops r k.
 Proof. exact all_histories. Qed.
 
@@ -38,16 +37,27 @@ Theorem C30_keys : forall s r,
   NoDup (get_property_keys s r) /\ forall k, In k (get_property_keys s r) <-> abs s r k <> None.
 Proof. exact keys_abs. Qed.
 
-(* the recorded class is a real failure of the model of the code as written:
-   1024 consecutive rows from 0 make the column dense with base 0; a set at row
-   usize::MAX then computes idx - base + 1, which overflows *)
-Theorem C30_refuted :
-  exists ops, Known_C30 ops = true /\ run ops = None.
-Proof. exact (ex_intro _ _ refuted_witness). Qed.
+(* the code before the repair: its three span computations (plain usize
+   arithmetic) overflowed - a panic with overflow checks - on states these
+   histories reach; the repaired code runs the same histories and reads them back *)
+Example C30_original_code_refuted :
+  int_shape (st_of (expand (Fill 0 0 1024 1 0))) 0 = Some (0, 1024) /\
+  orig_grow_span usize_max 0 = None /\
+  int_shape (st_of (expand (Fill 0 (usize_max - 1023) 1024 1 0))) 0 = Some (usize_max - 1023, 1024) /\
+  orig_rebase_span (usize_max - 1023) 1024 (usize_max - 1024) = None /\
+  orig_promote_span usize_max 0 = None /\
+  (let ops := expand (Fill 0 0 1024 1 0) ++ [SetP usize_max 0 (PInt 1)] in
+   rows_ok ops = true /\ get_property (st_of ops) usize_max 0 = PInt 1 /\ get_property (st_of ops) 7 0 = PInt 7) /\
+  (let ops := expand (Fill 0 (usize_max - 1023) 1024 1 0) ++ [SetP (usize_max - 1024) 0 (PInt 1)] in
+   rows_ok ops = true /\ get_property (st_of ops) (usize_max - 1024) 0 = PInt 1 /\
+   get_property (st_of ops) usize_max 0 = PInt (-1)) /\
+  (let ops := expand (Fill 0 0 1023 1 0) ++ [SetP usize_max 0 (PInt 1)] in
+   rows_ok ops = true /\ get_property (st_of ops) usize_max 0 = PInt 1 /\ get_property (st_of ops) 0 0 = PInt 0).
+Proof. exact original_code_refuted. Qed.
 
 (* non-vacuity: one column goes sparse -> dense (1024 rows from 5000) -> rebased
    (row 4990 below the base) -> a removal inside the span -> demoted (a far-away
-   row) -> Other (a string in an integer column); outside the class, and it reads
+   row) -> Other (a string in an integer column), and it reads
    back as the map says at each stage *)
 Example C30_nonvacuous :
   let fill := expand (Fill 7 5000 1024 1 0) in
@@ -58,7 +68,7 @@ Example C30_nonvacuous :
   let h3 := h2 ++ [RemoveP 5003 7] in
   let h4 := h3 ++ [SetP 90000000 7 (PInt 2)] in
   let h5 := h4 ++ [SetP 5001 7 (PStr 9)] in
-  Known_C30 h5 = false /\
+  rows_ok h5 = true /\
   dense h1 = (true, 1024) /\ dense h2 = (true, 1025) /\ dense h3 = (true, 1024) /\
   dense h4 = (false, 1025) /\ dense h5 = (false, 1025) /\
   get_property (st h2) 4990 7 = PInt 1 /\ get_property (st h2) 4995 7 = PNull /\
@@ -71,4 +81,3 @@ Print Assumptions C30_all_histories.
 Print Assumptions C30_refines.
 Print Assumptions C30_get.
 Print Assumptions C30_keys.
-Print Assumptions C30_refuted.
